@@ -40,8 +40,8 @@ type path []string
 func (p path) cursor() string {
 	var sb strings.Builder
 	for _, c := range p {
-		if c == arr {
-			sb.WriteString(arr)
+		if c == arr || strings.HasPrefix(c, "[") {
+			sb.WriteString(c) // "[]" = every element; "[0]", "[*]", ... are written as given and denote no element
 		} else {
 			sb.WriteString("." + c)
 		}
@@ -753,6 +753,21 @@ func genExclusions(r *sim.Rand, doc any, keys []string) []path {
 				out = append(out, path{})
 			} else {
 				out = append(out, sim.Pick(r, append(nodes, path{"a"})))
+			}
+		}
+	}
+	// bracket notations other than "[]": an index, a JSONPath wildcard, a quoted member. The exclusion notation
+	// knows "[]" only, so such a component matches no path at all - in particular it does not stand for
+	// "every element", which would expose the other elements
+	for i := range out {
+		if r.Chance(1, 5) {
+			for j, c := range out[i] {
+				if c == arr {
+					q := clonePath(out[i])
+					q[j] = sim.Pick(r, []string{"[0]", "[1]", "[*]", "[17]"})
+					out[i] = q
+					break
+				}
 			}
 		}
 	}
